@@ -11,6 +11,7 @@ import itertools
 from .. import common
 
 HISTORY_LEN = {"quick": 5, "thorough": 6}
+ORDER_LEN = {"quick": 4, "thorough": 5}
 BOUNDS = {
     # (alphabet, max length).  '\r', U+2028, '\x0b', '\x85' are ordinary characters for this property (line breaks are
     # '\n' only), but str.splitlines() treats them as line boundaries - so they must be in some alphabet.
@@ -141,7 +142,41 @@ def check_histories(length: int, first_parts):
     return fails[:20], evals, same_addr
 
 
+def check_orders(length: int, first_parts):
+    """One text object queried at three offsets in every order (late, early, late again ...): each answer must be that of the offset alone,
+    whatever an implementation indexed or remembered from the earlier queries on the same object."""
+    from pest.pairs import Pair, Position, Span
+    from pest.state import RuleFrame
+
+    frame = RuleFrame("r", 0)
+    fails, evals = [], 0
+    parts = [list(t) for t in itertools.product("a\n\u00e9", repeat=length)]
+    for pa in (parts if first_parts is None else first_parts):
+        for p1 in range(length + 1):
+            for p2 in range(length + 1):
+                for p3 in range(length + 1):
+                    t = "".join(pa)          # a fresh object for every order
+                    evals += 1
+                    got = []
+                    got.append(tuple(Position(t, p1).line_col()))
+                    got.append(tuple(Pair(t, p2, length, frame).line_col()))
+                    got.append(tuple(Position(t, p3).line_col()))
+                    lines_got = list(Span(t, p1, length).lines())
+                    want = [ref_line_col(t, p1), ref_line_col(t, p2), ref_line_col(t, p3)]
+                    if got != want:
+                        fails.append({"kind": "line_col-depends-on-earlier-queries", "text": t, "offsets_in_order": [p1, p2, p3], "got": [list(g) for g in got], "expected": [list(w) for w in want]})
+                    else:
+                        lw = ref_lines(t)[ref_line_col(t, p1)[0] - 1: ref_line_col(t, length)[0]]
+                        if lines_got != lw:
+                            fails.append({"kind": "span.lines-depends-on-earlier-queries", "text": t, "offsets_in_order": [p1, p2, p3], "got": lines_got, "expected": lw})
+    return fails[:20], evals
+
+
 def _chunk(payload):
+    if payload[0] == "orders":
+        _, length, first_parts = payload
+        f, e = check_orders(length, first_parts)
+        return f, e, 0, 0, 0
     if payload[0] == "histories":
         _, length, first_parts = payload
         f, e, same = check_histories(length, first_parts)
@@ -181,6 +216,10 @@ def run(tier: str) -> int:
         parts = [list(t) for t in itertools.product("a\n", repeat=length)]
         for i in range(0, len(parts), 2):
             payloads.append(("histories", length, parts[i:i + 2]))
+    for length in range(1, ORDER_LEN[tier] + 1):
+        parts = [list(t) for t in itertools.product("a\n\u00e9", repeat=length)]
+        for i in range(0, len(parts), 9):
+            payloads.append(("orders", length, parts[i:i + 9]))
     hist_evals = same_addr = 0
     for f, e, nt, t, same in common.parallel_map(_chunk, payloads, fresh=False, order_seed=common.seed()):
         fails.extend(f)
@@ -213,6 +252,8 @@ def run(tier: str) -> int:
         "samples": [{"text": t, "offsets": [[p, list(ref_line_col(t, p))] for p in range(len(t) + 1)]} for t in common.pick_samples(some, 3)],
         "exhaustive": True,
         "texts": texts,
+        "query_orders": {"length": ORDER_LEN[tier], "rule": "every text over {a, newline, e-acute} up to the length bound as ONE object queried at three offsets in every order "
+                         "(Position.line_col, Pair.line_col, Position.line_col, then Span.lines): each answer must be that of its offset alone"},
         "two_text_histories": {"length": hist_len, "second_text_at_first_texts_address": same_addr,
                                "rule": "every ordered pair of different texts over {a, newline} of equal length <= the bound x every offset in the first x every offset in the second: "
                                        "line_col of the first, drop it, build the second, line_col and Span(q, len).lines() of the second must be those of the second text alone"},
@@ -230,6 +271,14 @@ def run(tier: str) -> int:
 
 
 def replay_case(case: dict) -> bool:
+    if "offsets_in_order" in case:
+        from pest.pairs import Position
+
+        t = "".join(list(case["text"]))
+        got = [tuple(Position(t, p).line_col()) for p in case["offsets_in_order"]]
+        want = [ref_line_col(t, p) for p in case["offsets_in_order"]]
+        print("  got", got, "expected", want)
+        return got != want
     if "previous_text" in case:
         from pest.pairs import Position
 
